@@ -285,6 +285,19 @@ ROUND6 = {
 }
 
 
+# round 7 (DESIGN.md 9.11)
+ROUND7 = {
+    "C01": " Round 7: multi-line verbatim bodies with trailing blanks / a blank-only continuation line.",
+    "C04": " Round 7: (R6) clauses a query does not write keep their defaults: the listener is driven in ParseTreeWalker order over `S note`, `W o`, `S note W o` from sentinel fields.",
+    "C07": " Round 7: persistence scenarios at the suffix roll-over (zz -> 000); the calendar partition refines non-uniform classes down to the offending date.",
+    "C09": " Round 7: property values / count(prop:KEY) over notes that lack the key (no phantom empty value).",
+    "C10": " Round 7: every kind of item moved as x / ~ lands as the requested kind; (R7) the template-choice scenarios of C16 are adopted for a destination that does not exist yet.",
+    "C13": " Round 7: every file-removing function the db commands run around their handlers (session / database preparation) is run by itself in the virtual world and must leave next_ids.json alone.",
+    "C15": " Round 7: reads through file handles are modelled; an expansion must stay on one line.",
+    "C16": " Round 7: a caller variable named like a capture gives way to it; overwrite + no matching pattern leaves the existing target in place.",
+}
+
+
 def main() -> None:
     props = [json.loads(l) for l in (VERIF / "properties.jsonl").read_text().splitlines() if l.strip()]
     checks = []
@@ -293,7 +306,7 @@ def main() -> None:
         pid = p["id"]
         if pid in CHECKS:
             tech, text, note, ref = CHECKS[pid]
-            text = text + ADDENDA.get(pid, "") + ROUND34.get(pid, "") + ROUND5.get(pid, "") + ROUND6.get(pid, "") + (METHOD if pid in ("C01", "C02", "C03", "C05", "C06", "C07", "C08", "C09", "C10", "C11", "C12", "C13", "C14", "C15", "C16", "C17", "C18") else "")
+            text = text + ADDENDA.get(pid, "") + ROUND34.get(pid, "") + ROUND5.get(pid, "") + ROUND6.get(pid, "") + ROUND7.get(pid, "") + (METHOD if pid in ("C01", "C02", "C03", "C05", "C06", "C07", "C08", "C09", "C10", "C11", "C12", "C13", "C14", "C15", "C16", "C17", "C18") else "")
             checks.append(
                 {
                     "property_id": pid,
